@@ -232,6 +232,10 @@ var probes = []string{
 	"输出（取随机数） >= 0",
 	"输出显示",
 	"输出异常",
+	// values handed out by a library: every call must hand out a pristine one
+	"导入《@JSON》\n输出（解析JSON：“null”）",
+	"导入《@JSON》\n输出（解析JSON：“{}”）",
+	"导入《@JSON》\n输出【（解析JSON：“null”），（解析JSON：“{\"a\":[]}”）】",
 	// programs run from files, importing modules that lie next to them
 	fileProg("导入“工具”\n输出（加一：41）", "工具", "如何加一？\n    输入数\n    输出数 + 1"),
 	fileProg("导入“工具”\n导入“库-甲”\n输出【（加一：1），（甲法）】", "工具", "如何加一？\n    输入数\n    输出数 + 1", "库-甲", "导入“库-乙”\n如何甲法？\n    输出（乙法） + 1", "库-乙", "如何乙法？\n    输出10"),
@@ -248,7 +252,7 @@ func genPolluter(t *rapid.T) string {
 	arg := func() string {
 		return rapid.SampledFrom([]string{"1", "41", "“a”", "【1】", "真", "数值", "-0.5"}).Draw(t, "parg")
 	}
-	switch rapid.IntRange(0, 13).Draw(t, "pk") {
+	switch rapid.IntRange(0, 14).Draw(t, "pk") {
 	case 0: // redefine the constructor of a predefined / library type
 		cls := rapid.SampledFrom([]string{"异常", "异常", "HTTP响应", "HTTP请求", "数值", "显示"}).Draw(t, "ccls")
 		imp := ""
@@ -314,6 +318,10 @@ func genPolluter(t *rapid.T) string {
 		default:
 			return fileProg("导入“坏”\n输出1", "坏", tool, "工具", tool)
 		}
+	case 13: // a value handed out by a library, changed in place without being rebound (得到 / argument)
+		doc := rapid.SampledFrom([]string{"null", "{}", "{\"a\":[]}", "{\"a\":[1],\"b\":{}}"}).Draw(t, "doc")
+		mut := rapid.SampledFrom([]string{"以结果（写入：“k”、1）", "以结果（移除：“a”）", "结果#“z” = 【1】", "（改：结果）"}).Draw(t, "jmut")
+		return "导入《@JSON》\n如何改？\n    输入典\n    以典（写入：“p”、2）\n    输出典\n（解析JSON：“" + doc + "”），得到结果\n" + mut + "\n输出结果"
 	case 10: // syntax errors
 		return rapid.SampledFrom([]string{"令", "如果真：", "（显示：", "“未闭合", "令甲 = 1\n    令乙 = 2"}).Draw(t, "syn")
 	default:
@@ -444,6 +452,8 @@ func TestKnownPolluters(t *testing.T) {
 		"导入《@测试库》\n令物 = （新建HTTP响应：200、“x”）\n以物之头部（写入：“z”、1）\n输出1",
 		"以“1*^3”（转换数值）\n输出1",
 		"令真 = 0\n输出1",
+		"导入《@JSON》\n（解析JSON：“null”），得到结果\n以结果（写入：“k”、1）\n输出结果",
+		"导入《@JSON》\n（解析JSON：“{}”），得到结果\n以结果（写入：“k”、1）\n输出结果",
 		// declarations of every name a probe uses
 		"令甲 = 5\n输出甲", "如何甲？\n    输出1\n输出（甲）", "如何解析JSON？\n    输出1\n输出（解析JSON）", "如何双？\n    输出0\n输出（双）",
 		"定义盒：\n    其量 = 【9】\n输出（新建盒）之量", "导入《@JSON》\n输出1", "导入《@测试库》\n输出1",
